@@ -1,0 +1,52 @@
+// +build verif
+
+package sleep
+
+import (
+	"sync"
+	"sync/atomic"
+)
+
+// The verif build keeps the set of live sleepers so that a harness can tell
+// when every goroutine that waits on a Sleeper is parked (committed to sleep
+// with nothing asserted), i.e. the stack is quiescent.
+var (
+	verifMu       sync.Mutex
+	verifSleepers = map[*Sleeper]struct{}{}
+)
+
+func verifRegister(s *Sleeper) {
+	verifMu.Lock()
+	verifSleepers[s] = struct{}{}
+	verifMu.Unlock()
+}
+
+func verifUnregister(s *Sleeper) {
+	verifMu.Lock()
+	delete(verifSleepers, s)
+	verifMu.Unlock()
+}
+
+// VerifQuiescent reports whether every live Sleeper is parked: its goroutine
+// has committed to sleep (waitingG holds a real g) and no waker is pending on
+// its shared list.
+func VerifQuiescent() bool {
+	verifMu.Lock()
+	defer verifMu.Unlock()
+	for s := range verifSleepers {
+		if atomic.LoadUintptr(&s.waitingG) <= preparingG {
+			return false
+		}
+		if atomic.LoadPointer(&s.sharedList) != nil {
+			return false
+		}
+	}
+	return true
+}
+
+// VerifLiveSleepers returns the number of registered sleepers.
+func VerifLiveSleepers() int {
+	verifMu.Lock()
+	defer verifMu.Unlock()
+	return len(verifSleepers)
+}
